@@ -113,7 +113,7 @@ def elementwise_cut(fname, orig, nargs=None, dom=None):
     return stub
 
 
-def row_kernel_cut(fname, orig, argnames, ncomp=3):
+def row_kernel_cut(fname, orig, argnames, ncomp=3, dom=None):
     """abstract a row-wise kernel  f(**{name: (n,k) arrays}) -> (n,ncomp)  as ncomp uninterpreted functions of the
     flattened row arguments."""
 
@@ -145,8 +145,9 @@ def row_kernel_cut(fname, orig, argnames, ncomp=3):
             flat = []
             for a in arrs:
                 flat.extend(list(_np.asarray(a[i], dtype=object).ravel()))
+            d = dom({nm: _np.asarray(a[i], dtype=object) for nm, a in zip(argnames, arrs)}) if dom is not None else None
             for c in range(ncomp):
-                out[i, c] = ufcall(f"{fname}{c}", flat)
+                out[i, c] = ufcall(f"{fname}{c}", flat, dom=d)
         return out.view(SymArray)
 
     stub.shapes = {}
